@@ -2,6 +2,8 @@ import HdVerif.Proofs.SRReport
 import HdVerif.Generated.T16d
 import HdVerif.Generated.T16e
 import HdVerif.Generated.T16f
+import HdVerif.Generated.T16g
+import HdVerif.Generated.T15c
 /-! # C16  Measurement-report queries return exactly the matching groups
 
 Property theorems only.  Model: `Model/SRReport.lean`.  The kind classification by content counting
@@ -90,6 +92,30 @@ theorem no_state_carried_across_groups :
     Gen.queryLoopCarried.map Prod.fst = ["get_planar_roi_measurement_groups", "get_volumetric_roi_measurement_groups",
                                           "get_image_measurement_groups"] ∧
     ∀ row ∈ Gen.queryLoopCarried, row.2 = [] := by decide
+
+/-- **A query leaves nothing behind on the report object.**  The table of what the three queries and every method of the
+report they call on `self` (here: `_find_measurement_groups`) write on the report — attribute assignments and deletions,
+`setattr` / `__dict__` writes, memoising decorators, `global` / `nonlocal` (computed from the current source on every run,
+T16g) — is empty.  So the answer of a query is a function of the report's content NOW: no cache that an in-place edit of
+the report (a group replaced, two groups exchanged) can make stale.  This is what entitles the model to take the list of
+group containers as its input. -/
+theorem queries_write_nothing_on_the_report :
+    Gen.queryWritesOnSelf.map Prod.fst = ["get_planar_roi_measurement_groups", "get_volumetric_roi_measurement_groups",
+                                           "get_image_measurement_groups", "_find_measurement_groups"] ∧
+    ∀ row ∈ Gen.queryWritesOnSelf, row.2 = [] := by decide
+
+/-- The test by which the model's searches pick items of a container (`name ∧ value type ∧ relationship type`, each an
+equality — of concept names: CodedConcept equality, under which the legacy SNOMED-RT spelling equals the SNOMED-CT one;
+the harness normalises both to one string) is the conjunction of the three predicates of `find_content_items` as they stand
+in the source now (T15c, shared with C15; it also pins `item.name == name` as the comparison of names). -/
+theorem search_item_test_is_source_test (it : GItem) (name vt rel : String) :
+    (do
+      let a ← Gen.findHasName true (it.name == name)
+      let b ← Gen.findHasValueType true (it.vt == vt)
+      let c ← Gen.findHasRelationshipType true false (it.rel == rel)
+      pure (a && b && c)) = (.ok (it.name == name && it.vt == vt && it.rel == rel) : Except ErrKind Bool) := by
+  unfold Gen.findHasName Gen.findHasValueType Gen.findHasRelationshipType
+  simp [bind, Except.bind, pure, Except.pure]
 
 /-- a query whose arguments are refused returns nothing at all: the error of the argument check -/
 theorem refused_arguments_refuse_query (k : Kind) (gs : List Group) (f : Filters) (e : ErrKind) (h : argCheck k f = .error e) :
